@@ -27,6 +27,7 @@ class Failure:
         self.message = message
         self.lines = lines
         self.detail = detail
+        self.site = None        # function in which a (trait) clause failed
 
     def as_dict(self):
         return {'obligation': self.oid, 'kind': self.kind, 'message': self.message, 'lines': self.lines, 'detail': self.detail}
@@ -166,7 +167,9 @@ def attribute(d, info):
     if site_region and site_region[2] == 'lemma':
         return Failure(site_region[3], kind, msg, lines, detail)
     if msg.startswith('postcondition not satisfied') and clause:
-        return Failure(clause, kind, msg, lines, detail)
+        f = Failure(clause, kind, msg, lines, detail)
+        f.site = site_fn[2] if site_fn else None
+        return f
     if msg.startswith('precondition not satisfied'):
         if site_fn:
             return Failure('%s/call' % site_fn[2] + ((':' + clause) if clause else ''), kind, msg, lines, detail)
